@@ -25,7 +25,7 @@ pub struct WRound {
     pub ext_cmd: Option<(u8, f32)>,
     /// time advance before this round's writes (>= 0; 0 repeats a timestamp)
     pub dt: i64,
-    /// encoder: 0 present, 1 absent, 2 error from get, 3 error from update
+    /// encoder: 0 present, 1 absent, 2 error from get, 3 error from update, 4 Error::FromNone from get
     pub inner_get: u8,
     pub inner_value: [f32; 3],
     /// actuator / pid motor: accept the set? error from update?
@@ -194,12 +194,13 @@ pub fn check(s: &Scenario) -> CheckResult {
                 t += r.dt.max(0);
                 apply_writes(r, t, term, ext);
                 let datum = Datum::new(Time(t - 3), st(r.inner_value));
-                *cur.borrow_mut() = match r.inner_get % 4 {
+                *cur.borrow_mut() = match r.inner_get % 5 {
                     0 | 3 => Ok(Some(datum)),
                     1 => Ok(None),
-                    _ => Err(Error::Other(5)),
+                    2 => Err(Error::Other(5)),
+                    _ => Err(Error::FromNone),
                 };
-                upd_err.set(r.inner_get % 4 == 3);
+                upd_err.set(r.inner_get % 5 == 3);
                 let before = own_state(term);
                 let before_cmd = own_command(term);
                 let n0 = updates.get();
@@ -213,7 +214,7 @@ pub fn check(s: &Scenario) -> CheckResult {
                     (Some(x), Some(y)) => x.time == y.time && flat(x.value).iter().zip(flat(y.value).iter()).all(|(p, q)| bits_eq(*p, *q)),
                     _ => false,
                 };
-                match r.inner_get % 4 {
+                match r.inner_get % 5 {
                     0 => {
                         data_rounds += 1;
                         ensure!(ret == Ok(()), "C20/Encoder/return", "round {}: update returned {:?}", ri, ret);
@@ -224,8 +225,9 @@ pub fn check(s: &Scenario) -> CheckResult {
                         ensure!(ret == Ok(()), "C20/Encoder/return", "round {}: update returned {:?}", ri, ret);
                         ensure!(same(after, before), "C20/Encoder/touched-when-absent", "round {}: the getter is absent but the terminal's own state changed {:?} -> {:?}", ri, before, after);
                     }
-                    2 => {
-                        ensure!(ret == Err(Error::Other(5)), "C20/Encoder/error-propagation", "round {}: the getter returns Err(5) but update returned {:?}", ri, ret);
+                    2 | 4 => {
+                        let want = if r.inner_get % 5 == 2 { Error::Other(5) } else { Error::FromNone };
+                        ensure!(ret == Err(want), "C20/Encoder/error-propagation", "round {}: the getter returns Err({:?}) but update returned {:?}", ri, want, ret);
                         ensure!(same(after, before), "C20/Encoder/touched-on-error", "round {}: the getter errs but the terminal's own state changed", ri);
                     }
                     _ => {
@@ -234,7 +236,7 @@ pub fn check(s: &Scenario) -> CheckResult {
                     }
                 }
                 ensure!(own_command(term) == before_cmd, "C20/Encoder/command-touched", "round {}: the encoder wrapper changed the terminal's command slot", ri);
-                sig.push(hash_of(&(r.inner_get % 4,)));
+                sig.push(hash_of(&(r.inner_get % 5,)));
             }
         }
         Which::Pid => {
@@ -308,7 +310,7 @@ fn wround() -> BoxedStrategy<WRound> {
         proptest::option::weighted(0.3, (0u8..3, gen::mostly_moderate_any_finite())),
         proptest::option::weighted(0.3, (0u8..3, gen::mostly_moderate_any_finite())),
         prop_oneof![1 => Just(0i64), 9 => gen::log_ns(1, 3_600_000_000_000)],
-        prop_oneof![6 => Just(0u8), 2 => Just(1u8), 1 => Just(2u8), 1 => Just(3u8)],
+        prop_oneof![6 => Just(0u8), 2 => Just(1u8), 1 => Just(2u8), 1 => Just(3u8), 1 => Just(4u8)],
         triple(),
         proptest::bool::weighted(0.9),
         proptest::bool::weighted(0.1),
@@ -340,6 +342,11 @@ impl Property for C20 {
     }
     fn check(s: &Scenario) -> CheckResult {
         check(s)
+    }
+    fn valid(s: &Scenario) -> bool {
+        let fin3 = |v: &[f32; 3]| v.iter().all(|x| dom::finite(*x));
+        s.k.iter().all(|x| dom::wide(*x)) && dom::t0(s.init_time) && s.init_state.iter().all(|x| dom::moderate(*x)) && dom::moderate(s.init_cmd.1) && (1..=32).contains(&s.rounds.len())
+            && s.rounds.iter().all(|r| (0..=3_600_000_000_000).contains(&r.dt) && r.own_state.iter().chain(r.ext_state.iter()).all(fin3) && r.own_cmd.iter().chain(r.ext_cmd.iter()).all(|(_, v)| dom::finite(*v)) && fin3(&r.inner_value))
     }
     fn assumptions() -> Vec<String> {
         vec!["the inner motor of the PID wrapper forwards followed values in its update (update_following_data), as the Settable documentation requires of implementors".into(), "what the terminal 'currently sees' is its combined read just before the wrapper's update (terminal read semantics are C09's subject)".into()]
